@@ -28,15 +28,15 @@ import rcache_sched as S
 CID = "C11"
 AREA = "rcache"
 VO = ["props/C11.vo", "rcache/PyList.vo", "rcache/RCacheModel.vo", "rcache/RCacheSpec.vo",
-      "rcache/RCacheThm.vo", "rcache/RQueryModel.vo", "rcache/RQuerySpec.vo"]
+      "rcache/RCacheThm.vo", "rcache/RQueryModel.vo", "rcache/RQuerySpec.vo", "rcache/RQueryThm.vo"]
 
 
 def listing(recipe):
     return [R.to_int(x) for x in R.build(recipe, False)]
 
 
-def prog_args(L, ops):
-    a = [1, len(L)] + L + [len(ops)]
+def prog_args(L, ops, flags=1):
+    a = [flags, len(L)] + L + [len(ops)]
     for op in ops:
         a += S.op_code(op)
     return a
@@ -49,11 +49,12 @@ def expected(recipe, op):
 
 # ------------------------------------------------------------------ (i) single-threaded histories
 
-def run_history(recipe, ops, hist):
+def run_history(recipe, ops, hist, cache=True):
     """hist: list of (kind, tid): 0 create iterator, 1 next(), 2 run the query op of tid.
     Returns the observation list in the encoding of hist_run (ExtractRcache.v)."""
-    rule = R.build(recipe, True)
-    rule._cache_lock = S.STLock()
+    rule = R.build(recipe, cache)
+    if cache:
+        rule._cache_lock = S.STLock()
     its = {}
     obs = []
     for (k, t) in hist:
@@ -77,6 +78,8 @@ def run_history(recipe, ops, hist):
                 obs += [2, 1]
             except TypeError:
                 obs += [2, 2]
+            except ValueError:
+                obs += [2, 3]
             except Exception as ex:
                 obs += ["EXC", type(ex).__name__]
                 break
@@ -149,7 +152,9 @@ def histories(n, L, r, tier):
             seen.add(perm)
             out.append((it3, [(0, 0), (0, 1), (0, 2)] + [(1, t) for t in perm], "all-interleavings-3"))
     # F2: phases a^p b^q a* b*, b created before / after a's phase
-    marks = sorted(set(x for x in [0, 1, 2, 9, 10, 11, 19, 20, 21, 29, 30, 31, n - 1, n, n + 1] if 0 <= x <= n + 1))
+    cand = [0, 1, 9, 10, 11, 20, 21, 30, n, n + 1] if tier == "quick" else \
+        [0, 1, 2, 9, 10, 11, 19, 20, 21, 29, 30, 31, n - 1, n, n + 1]
+    marks = sorted(set(x for x in cand if 0 <= x <= n + 1))
     for p in marks:
         for q in marks:
             for late in (False, True):
@@ -160,7 +165,7 @@ def histories(n, L, r, tier):
     out.append((it2, [(0, 0), (0, 1)] + [(1, j % 2) for j in range(2 * n + 4)], "alternate"))
     out.append(([["list"]] * 3, [(0, 0), (0, 1), (0, 2)] + [(1, j % 3) for j in range(3 * n + 6)], "alternate"))
     # F3: random: 2-4 iterators created lazily, queries interleaved
-    nr = 12 if tier == "quick" else 150
+    nr = 10 if tier == "quick" else 150
     for _ in range(nr):
         ni = r.randint(2, 4)
         qs = r.sample(query_ops(L, r), r.randint(0, 3))
@@ -188,15 +193,22 @@ def check_histories(o, tier, r, verdict, stats, samples, t_end):
     lengths = list(range(0, 32))
     recs = [(n, R.daily(n)) for n in lengths]
     for n in (0, 1, 9, 10, 11, 20, 21, 30):
-        for v in (0, 1, 2):
-            recs.append((n, R.set_of_length(n, v)))
+        for rec in R.variants_of_length(n)[1:]:
+            recs.append((n, rec))
     if tier == "thorough":
         recs += [(None, R.random_recipe(r)) for _ in range(150)]
     for (n_expected, recipe) in recs:
         if time.time() > t_end:
             stats["histories_stopped_by_time_budget"] = True
             break
-        L = listing(recipe)
+        try:
+            with R.watchdog(60):
+                L = listing(recipe)
+        except (R.Timeout, IndexError, TypeError, ValueError, RuntimeError) as ex:
+            verdict.violation({"kind": "listing the uncached rule failed: %s" % type(ex).__name__,
+                               "input": {"mode": "history", "recipe": recipe, "ops": [["list"]], "history": [[2, 0]]}},
+                              concrete=False)
+            continue
         n = len(L)
         if n_expected is not None and n != n_expected:
             raise AssertionError("recipe length %d != %d" % (n, n_expected))
@@ -207,8 +219,23 @@ def check_histories(o, tier, r, verdict, stats, samples, t_end):
             reqs.append((10, prog_args(L, ops) + [x for kt in h for x in kt]))
         model = R.call_many(o, reqs)
         for (ops, h, fam), mod in zip(cases, model):
-            got = run_history(recipe, ops, h)
-            want = spec_history(L, recipe, ops, h, memo)
+            try:
+                with R.watchdog(10):
+                    got = run_history(recipe, ops, h)
+                    want = spec_history(L, recipe, ops, h, memo)
+            except R.Timeout:
+                stats["hist_impl_vs_spec"] += 1
+                verdict.violation({"kind": "operation never completes (no answer within 10 s) in a single-threaded history",
+                                   "input": {"mode": "history", "recipe": recipe, "ops": ops, "history": h}})
+                stats["timeouts"] = stats.get("timeouts", 0) + 1
+                if stats["timeouts"] >= 3:
+                    return
+                continue
+            except (IndexError, TypeError, ValueError, RuntimeError) as ex:
+                verdict.violation({"kind": "operation on the rule raised %s" % type(ex).__name__,
+                                   "input": {"mode": "history", "recipe": recipe, "ops": ops, "history": h},
+                                   "exception": repr(ex)[:300]})
+                continue
             stats["histories"] += 1
             stats["hist_family"][fam] = stats["hist_family"].get(fam, 0) + 1
             stats["hist_len"][str(n)] = stats["hist_len"].get(str(n), 0) + 1
@@ -230,6 +257,65 @@ def check_histories(o, tier, r, verdict, stats, samples, t_end):
                                 "history": h[:60], "impl": got[:40], "model": mod[:40]})
 
 
+# ------------------------------------------------------------------ rules whose generator raises (F-C11-raise)
+
+def raising_recipes():
+    import datetime as dt
+    from dateutil import rrule as rr
+    t = R.to_int(dt.datetime(2000, 1, 1, 0, 30))
+    return [{"kind": "rrule", "kw": {"freq": rr.MINUTELY, "dtstart": t, "interval": 1440, "byhour": [1], "count": 3}},
+            {"kind": "rrule", "kw": {"freq": rr.MINUTELY, "dtstart": t, "interval": 2880, "byhour": [7, 9]}},
+            {"kind": "rrule", "kw": {"freq": rr.SECONDLY, "dtstart": t, "interval": 3600, "byminute": [5], "count": 12}},
+            {"kind": "rrule", "kw": {"freq": rr.SECONDLY, "dtstart": t, "interval": 86400, "byhour": [5]}}]
+
+
+def matcher_raising_generator(payload):
+    """F-C11-raise: the rule cannot be listed at all -- list(uncached rule) raises ValueError"""
+    inp = payload.get("input") or {}
+    if inp.get("mode") != "raising" or not str(payload.get("kind", "")).startswith("cached rule whose generator raises"):
+        return False
+    try:
+        list(R.build(inp["recipe"], False))
+    except ValueError:
+        return True
+    except Exception:
+        return False
+    return False
+
+
+def check_raising(o, verdict, stats, samples):
+    # every operation is one thread of the model: a tid is used for one query run only
+    ops = [["list"], ["list"], ["list"], ["count"], ["get", 0], ["take", 2], ["count"]]
+    hists = [[(2, 0), (2, 1), (2, 2), (2, 3), (2, 4), (2, 5)],
+             [(0, 0), (0, 1), (1, 0), (1, 1), (1, 1), (1, 0), (2, 3), (2, 2)],
+             [(2, 3), (2, 6), (2, 0), (2, 4)],
+             [(0, 0), (2, 5), (1, 0), (0, 1), (1, 1), (1, 0)]]
+    for recipe in raising_recipes():
+        for h in hists:
+            cached = run_history(recipe, ops, h, cache=True)
+            uncached = run_history(recipe, ops, h, cache=False)
+            model = o.call(10, prog_args([], ops, 3) + [x for kt in h for x in kt])
+            stats["raising_histories"] += 1
+            inp = {"mode": "raising", "recipe": recipe, "ops": ops, "history": h}
+            cached_n = [(-1 if x is None else x) for x in cached]
+            if cached != uncached:
+                stats["raising_cached_vs_uncached"] += 1
+                verdict.violation({"kind": "cached rule whose generator raises is observed differently from the uncached rule",
+                                   "input": inp, "impl": cached, "uncached_spec": uncached, "model_raises_true": model})
+            if cached_n != model:
+                stats["raising_impl_vs_model"] += 1
+                verdict.violation({"kind": "correspondence: transition system with a raising generator differs from implementation",
+                                   "input": inp, "impl": cached, "model": model}, concrete=False)
+        for k in range(6):
+            tops = [["list"], ["count"], ["list"], ["take", 1]][:2 + k % 3]
+            plan = [[(k + j) % len(tops), 3 + 5 * ((k * 7 + j * 3) % 9)] for j in range(8)]
+            one_thread_case(o, recipe, [], tops, plan, "raising-generator-threads", verdict, stats, samples,
+                            None, raises=True)
+        samples.append({"mode": "raising", "rule": R.describe(recipe), "ops": ops, "history": hists[0],
+                        "cached": run_history(recipe, ops, hists[0], True),
+                        "uncached": run_history(recipe, ops, hists[0], False)})
+
+
 # ------------------------------------------------------------------ (ii) threads under the scheduler
 
 def run_schedule(recipe, ops, plan, max_steps=None):
@@ -240,11 +326,11 @@ def run_schedule(recipe, ops, plan, max_steps=None):
     return run
 
 
-def validate_trace(o, L, ops, run):
+def validate_trace(o, L, ops, run, flags=1):
     """replay the executed schedule in the extracted transition system and compare line by line.
     Returns (ok, detail, model_final)"""
     sched = run.schedule
-    out = o.call(11, prog_args(L, ops) + sched)
+    out = o.call(11, prog_args(L, ops, flags) + sched)
     if not isinstance(out, list):
         return False, {"oracle": out}, None
     k = 0
@@ -288,29 +374,35 @@ def thread_cases(tier, r):
     """(recipe, ops, plan, family)"""
     out = []
     two = [["list"], ["list"]]
-    lens1 = [0, 1, 9, 10, 11] if tier == "quick" else [0, 1, 9, 10, 11, 20, 21]
+    lens1 = [0, 1, 10, 11] if tier == "quick" else [0, 1, 9, 10, 11, 20, 21]
     # one pre-emption: A runs a lines, B runs to completion, A finishes -- every a
     for n in lens1:
         total = 45 + 7 * n + 30 * (n // 10 + 1)
-        stride = 1 if (tier == "thorough" or n <= 1) else (2 if n <= 11 else 5)
+        stride = 1
         for a in range(0, total, stride):
             out.append((R.daily(n), two, [[0, a], [1, -1], [0, -1]], "1-preemption"))
+    # two pre-emptions, complete grid for the shortest rules: A a lines, B b lines, A*, B*
+    for (n, st) in ([(0, 4)] if tier == "quick" else [(0, 1), (1, 2), (10, 7)]):
+        total = 45 + 7 * n + 30 * (n // 10 + 1)
+        for a in range(0, total, st):
+            for b in range(0, total, st):
+                out.append((R.daily(n), two, [[0, a], [1, b], [0, -1], [1, -1]], "2-preemptions-grid"))
     # two pre-emptions: A a lines, B b lines, A to completion, B to completion
     lens2 = [0, 1, 9, 10, 11, 20, 21]
-    n2 = 350 if tier == "quick" else 12000
+    n2 = 450 if tier == "quick" else 12000
     for _ in range(n2):
         n = r.choice(lens2)
         total = 45 + 7 * n + 30 * (n // 10 + 1)
         a = r.choice([r.randint(0, total), r.randint(0, 30), 6 + r.randint(0, 14)])
         b = r.choice([r.randint(0, total), r.randint(0, 30), 6 + r.randint(0, 60)])
-        rec = R.daily(n) if r.random() < 0.7 else R.set_of_length(n, r.randint(0, 2))
+        rec = R.daily(n) if r.random() < 0.6 else r.choice(R.variants_of_length(n))
         out.append((rec, two, [[0, a], [1, b], [0, -1], [1, -1]], "2-preemptions"))
     # random schedules, 3-4 threads, iterators mixed with queries
-    n3 = 300 if tier == "quick" else 10000
+    n3 = 400 if tier == "quick" else 10000
     for _ in range(n3):
         n = r.choice([0, 1, 2, 5, 9, 10, 11, 19, 20, 21, 30, r.randint(0, 31)])
-        rec = R.daily(n) if r.random() < 0.6 else R.set_of_length(n, r.randint(0, 2))
-        L = [R.T0 + R.DAY * k for k in range(n)] if rec["kind"] == "rrule" else listing(rec)
+        rec = R.daily(n) if r.random() < 0.5 else r.choice(R.variants_of_length(n))
+        L = listing(rec)
         nt = r.randint(2, 4)
         pool = query_ops(L, r)
         ops = [["list"]] + [r.choice(pool) if r.random() < 0.6 else ["list"] for _ in range(nt - 1)]
@@ -328,23 +420,33 @@ def check_threads(o, tier, r, verdict, stats, samples, t_end):
         if time.time() > t_end:
             stats["threads_stopped_by_time_budget"] = True
             break
+        if stats.get("leaked_threads", 0) >= 3 or stats["thread_problems"] >= 25:
+            stats["threads_stopped_after_repeated_hangs_or_deadlocks"] = True
+            break
         key = json.dumps(recipe, sort_keys=True)
         if key not in memoL:
             memoL[key] = listing(recipe)
         L = memoL[key]
-        one_thread_case(o, recipe, L, ops, plan, fam, verdict, stats, samples, r)
+        try:
+            one_thread_case(o, recipe, L, ops, plan, fam, verdict, stats, samples, r)
+        except (IndexError, TypeError, ValueError, RuntimeError) as ex:
+            verdict.violation({"kind": "operation on the rule raised %s" % type(ex).__name__,
+                               "input": {"mode": "threads", "recipe": recipe, "ops": ops, "plan": plan},
+                               "exception": repr(ex)[:300]})
 
 
-def one_thread_case(o, recipe, L, ops, plan, fam, verdict, stats, samples, r=None):
+def one_thread_case(o, recipe, L, ops, plan, fam, verdict, stats, samples, r=None, raises=False):
     run = run_schedule(recipe, ops, plan)
     stats["schedules"] += 1
+    stats["leaked_threads"] = stats.get("leaked_threads", 0) + run.leaked
     stats["sched_family"][fam] = stats["sched_family"].get(fam, 0) + 1
     stats["steps"] += len(run.log)
     stats["blocked_steps"] += sum(1 for e in run.log if e[1] == 0)
     switches = sum(1 for a, b in zip(run.schedule, run.schedule[1:]) if a != b)
     if switches >= 2 and len(L) >= 1:
         stats["nontrivial"].add(("T", json.dumps(recipe, sort_keys=True), json.dumps(ops), tuple(run.schedule)))
-    inp = {"mode": "threads", "recipe": recipe, "ops": ops, "plan": plan, "executed_schedule": run.schedule}
+    inp = {"mode": "raising" if raises else "threads", "recipe": recipe, "ops": ops, "plan": plan,
+           "executed_schedule": run.schedule}
     concrete = False
     if run.problem or run.leaked:
         concrete = True
@@ -353,17 +455,23 @@ def one_thread_case(o, recipe, L, ops, plan, fam, verdict, stats, samples, r=Non
                            "input": inp, "thread_status": run.status, "pcs": run.pc, "results": run.results})
     else:
         want = [expected(recipe, op) for op in ops]
-        if run.results != want:
+        if run.results != want and raises:
+            stats["raising_cached_vs_uncached"] += 1
+            concrete = verdict.violation({"kind": "cached rule whose generator raises is observed differently from "
+                                                  "the uncached rule under a thread schedule",
+                                          "input": inp, "impl": run.results, "uncached_spec": want})
+        elif run.results != want:
             concrete = True
             stats["thread_impl_vs_spec"] += 1
             verdict.violation({"kind": "cached rule observed differently from the uncached rule under a thread schedule",
                                "input": inp, "impl": run.results, "uncached_spec": want})
-    ok, detail, finals = validate_trace(o, L, ops, run)
+    ok, detail, finals = validate_trace(o, L, ops, run, 3 if raises else 1)
     if ok:
         stats["traces_validated"] += 1
         if not concrete:
             modres = [f[1] for f in finals]
-            if modres != run.results or not detail["all_done"]:
+            if modres != [([(-1 if x is None else x) for x in res] if res else res) for res in run.results] \
+                    or not detail["all_done"]:
                 stats["thread_impl_vs_model"] += 1
                 verdict.violation({"kind": "correspondence: final results of the transition system differ from implementation",
                                    "input": inp, "impl": run.results, "model": modres, "model_flags": detail},
@@ -379,6 +487,33 @@ def one_thread_case(o, recipe, L, ops, plan, fam, verdict, stats, samples, r=Non
                         "executed_schedule_len": len(run.schedule), "context_switches": switches,
                         "executed_schedule_head": run.schedule[:80], "results": [x[:8] for x in run.results],
                         "trace_validated": ok})
+
+
+# ------------------------------------------------------------------ regression corpus
+
+def run_regressions(o, verdict, stats, samples):
+    corpus = os.path.join(C.VERIF, "corpus", "regressions", CID + ".jsonl")
+    if os.path.exists(corpus):
+        for line in open(corpus):
+            line = line.strip()
+            if not line:
+                continue
+            c = json.loads(line)
+            L = listing(c["recipe"])
+            if c["mode"] == "threads":
+                one_thread_case(o, c["recipe"], L, c["ops"], c["plan"], "regression", verdict, stats, samples)
+            else:
+                h = [tuple(x) for x in c["history"]]
+                got = run_history(c["recipe"], c["ops"], h)
+                want = spec_history(L, c["recipe"], c["ops"], h, {})
+                stats["histories"] += 1
+                stats["hist_family"]["regression"] = stats["hist_family"].get("regression", 0) + 1
+                if got != want:
+                    stats["hist_impl_vs_spec"] += 1
+                    verdict.violation({"kind": "regression corpus: cached rule observed differently from the "
+                                               "uncached rule (or deadlock)",
+                                       "input": {"mode": "history", "recipe": c["recipe"], "ops": c["ops"],
+                                                 "history": h}, "impl": got, "uncached_spec": want})
 
 
 # ------------------------------------------------------------------ replay / main
@@ -397,9 +532,18 @@ def replay(path):
         print("impl      ", run_history(recipe, ops, h))
         print("model     ", o.call(10, prog_args(L, ops) + [x for kt in h for x in kt]))
         print("spec      ", spec_history(L, recipe, ops, h, {}))
-    elif inp.get("mode") == "threads":
+    elif inp.get("mode") == "raising" and "history" in inp:
+        recipe, ops, h = inp["recipe"], inp["ops"], [tuple(x) for x in inp["history"]]
+        print("rule      ", R.describe(recipe), " (its generator raises ValueError)")
+        print("ops       ", ops)
+        print("history   ", h)
+        print("impl      ", run_history(recipe, ops, h, cache=True))
+        print("model     ", o.call(10, prog_args([], ops, 3) + [x for kt in h for x in kt]), "(raises = true)")
+        print("spec      ", run_history(recipe, ops, h, cache=False), "(uncached rule)")
+    elif inp.get("mode") in ("threads", "raising"):
         recipe, ops = inp["recipe"], inp["ops"]
-        L = listing(recipe)
+        rz = inp.get("mode") == "raising"
+        L = [] if rz else listing(recipe)
         sched = inp.get("executed_schedule") or []
         plan = [[t, 1] for t in sched] if sched else inp["plan"]
         run = run_schedule(recipe, ops, plan)
@@ -407,7 +551,7 @@ def replay(path):
         print("ops       ", ops)
         print("schedule  ", run.schedule)
         print("impl      ", "problem=%s" % run.problem, "status", run.status, "pcs", run.pc, "results", run.results)
-        ok, detail, finals = validate_trace(o, L, ops, run)
+        ok, detail, finals = validate_trace(o, L, ops, run, 3 if rz else 1)
         print("model     ", "trace accepted" if ok else "trace REJECTED", detail, finals)
         print("spec      ", [expected(recipe, op) for op in ops])
     else:
@@ -422,7 +566,7 @@ def main():
         return replay(argv[argv.index("--replay") + 1])
     tier = C.tier_from_argv(argv)
     t0 = time.time()
-    verdict = C.Verdict(CID)
+    verdict = C.Verdict(CID, {"raising_generator": matcher_raising_generator})
     build_err = None
     try:
         C.ensure_built([AREA], VO)
@@ -438,35 +582,28 @@ def main():
     stats = {"histories": 0, "hist_family": {}, "hist_len": {}, "hist_impl_vs_spec": 0, "hist_impl_vs_model": 0,
              "schedules": 0, "sched_family": {}, "steps": 0, "blocked_steps": 0, "thread_problems": 0,
              "thread_impl_vs_spec": 0, "thread_impl_vs_model": 0, "traces_validated": 0, "traces_rejected": 0,
+             "raising_histories": 0, "raising_cached_vs_uncached": 0, "raising_impl_vs_model": 0,
              "nontrivial": set()}
     samples = []
     if os.path.exists(os.path.join(C.BIN, "oracle_" + AREA)):
         o = C.Oracle(AREA)
         # regression corpus first
-        corpus = os.path.join(C.VERIF, "corpus", "regressions", CID + ".jsonl")
-        if os.path.exists(corpus):
-            for line in open(corpus):
-                line = line.strip()
-                if not line:
-                    continue
-                c = json.loads(line)
-                L = listing(c["recipe"])
-                if c["mode"] == "threads":
-                    one_thread_case(o, c["recipe"], L, c["ops"], c["plan"], "regression", verdict, stats, samples)
-                else:
-                    h = [tuple(x) for x in c["history"]]
-                    got = run_history(c["recipe"], c["ops"], h)
-                    want = spec_history(L, c["recipe"], c["ops"], h, {})
-                    stats["histories"] += 1
-                    stats["hist_family"]["regression"] = stats["hist_family"].get("regression", 0) + 1
-                    if got != want:
-                        stats["hist_impl_vs_spec"] += 1
-                        verdict.violation({"kind": "regression corpus: cached rule observed differently from the "
-                                                   "uncached rule (or deadlock)",
-                                           "input": {"mode": "history", "recipe": c["recipe"], "ops": c["ops"],
-                                                     "history": h}, "impl": got, "uncached_spec": want})
-        budget_h = 50 if tier == "quick" else 400
-        budget_t = 75 if tier == "quick" else 600
+        try:
+            with R.watchdog(60):
+                run_regressions(o, verdict, stats, samples)
+        except R.Timeout:
+            verdict.violation({"kind": "operation never completes (regression corpus did not finish within 60 s)",
+                               "input": {"mode": "history", "recipe": R.daily(10), "ops": [["list"], ["list"]],
+                                         "history": [[0, 0], [0, 1]] + [[1, j % 2] for j in range(24)]}})
+        budget_h = 35 if tier == "quick" else 400
+        budget_t = 40 if tier == "quick" else 600
+        try:
+            with R.watchdog(120):
+                check_raising(o, verdict, stats, samples)
+        except R.Timeout:
+            verdict.violation({"kind": "operation never completes on a rule whose generator raises (120 s)",
+                               "input": {"mode": "raising", "recipe": raising_recipes()[0], "ops": [["list"]],
+                                         "history": [[2, 0]]}}, concrete=False)
         check_histories(o, tier, r, verdict, stats, samples, t1 + budget_h)
         check_threads(o, tier, r, verdict, stats, samples, time.time() + budget_t)
         o.close()
@@ -488,8 +625,8 @@ def main():
                 "iterators for n<=1, phase families a^p b^q a* b* with p,q around multiples of 10 and the second "
                 "iterator created before/after, strict alternation, random histories of 2-4 lazily created iterators "
                 "mixed with list/take/index/count/contains/between/before/after queries; (ii) real threads under the "
-                "line-level scheduler: 2 threads with one pre-emption at every line offset, two pre-emptions sampled, "
-                "random plans for 2-4 threads mixing iterators and queries. distinct = (rule, ops, history or executed "
+                "line-level scheduler: 2 threads with one pre-emption at every line offset, two pre-emptions on a complete (a,b) grid for the shortest rules and sampled "
+                "for lengths {0,1,9,10,11,20,21}, random plans for 2-4 threads mixing iterators and queries. distinct = (rule, ops, history or executed "
                 "schedule); non-trivial = history with >=2 iterators advancing on a non-empty rule, or schedule with "
                 ">=2 context switches on a non-empty rule",
         "exhaustive": False,
@@ -506,6 +643,11 @@ def main():
         "thread_deadlock_hang_livelock": stats["thread_problems"],
         "thread_impl_vs_uncached_spec_disagreements": stats["thread_impl_vs_spec"],
         "thread_impl_vs_model_final_result_disagreements": stats["thread_impl_vs_model"],
+        "raising_generator_histories": stats["raising_histories"],
+        "raising_generator_cached_vs_uncached_disagreements (finding F-C11-raise)": stats["raising_cached_vs_uncached"],
+        "raising_generator_impl_vs_model_disagreements": stats["raising_impl_vs_model"],
+        "guards": ["theorems are about generators that end normally (raises = false); the complement is "
+                   "C11_raising_generator_refuted / known finding F-C11-raise"],
         "partial_theorems": [t for t in props["theorems"] if "partial" in t],
         "outside_the_model": ["pre-emption inside a source line (bytecode level)", "free-threaded CPython",
                               "_invalidate_cache (rruleset mutators) racing with live iterators",
